@@ -1288,6 +1288,14 @@ theorem serialise_take_length_le (its : List Item) (j : Nat) : (serialise (its.t
   conv_rhs => rw [← List.take_append_drop j its, serialise_append]
   simp
 
+theorem filter_nil_of_lt (l : List Item) (b e : Nat) (res : Bytes) (h : ∀ it ∈ l, it.ts / 1000 < b / 1000) :
+    l.filter (fun it => inRange b e it && resMatch res it) = [] := by
+  rw [List.filter_eq_nil_iff]
+  intro it hit
+  have := h it hit
+  have : ¬ b / 1000 ≤ it.ts / 1000 := by omega
+  simp [inRange, this]
+
 /-! ### whatever the bytes and the cache are, a search only returns items parsed from a retained data file -/
 
 theorem scanEnd_subset (bs es : Nat) (res : Bytes) (l : List Item) : ∀ x ∈ (scanEnd bs es res l).1, x ∈ l := by
